@@ -1135,6 +1135,11 @@ func TestC16(t *testing.T) {
 		if err := json.Unmarshal(rc, &c); err != nil {
 			eng.HarnessError("bad replay case: %v", err)
 		}
+		if c.Kind == "" {
+			// a case recorded by the C16auto part (autoRefresh.Ensure, meta/C16auto.json): the driver hands every replay to all parts
+			fmt.Println("replay: the case belongs to part C16auto, nothing to do in the timeutil part")
+			r.Finish("replay")
+		}
 		replay(r, c)
 		r.Finish("replay")
 	}
